@@ -5,6 +5,7 @@ import RbV.Spec.KChain
 import RbV.Model.QGramIter
 import RbV.Model.QGramMatches
 import RbV.Model.QGramIndex
+import RbV.Model.QGramExact
 /-! Driver for property C19 (line protocol → verdict).
 
 ```
@@ -164,6 +165,9 @@ def checkQuery (A : List Nat) (q mc : Nat) (text : List Nat) (qu : Query) (res :
   | .e pat =>
     let raw := exactMatchesRef mc q pat text
     let exp := sortRecs (raw.map fun r => [r.1, r.2.1, r.2.2.1, r.2.2.2])
+    -- mirror model of the Rust loop, proved to report the same records (Thm.C19.exact_matches_model_refines)
+    if sortRecs ((exactMatchesModel mc q pat text).map fun r => [r.1, r.2.1, r.2.2.1, r.2.2.2]) ≠ exp then
+      (some (false, "BADOP exact-model-vs-reference"), []) else
     if panicked then (classify false, []) else
     match parseRecs 4 res with
     | some l => if sortRecs l = exp then (none, (if exp.isEmpty then [] else ["e-hit"])
